@@ -7,36 +7,580 @@ namespace Yalafi
 
 variable (T : PTables)
 
+/-! ### frame helpers (all helpers are `private`: no clashes with the other step files) -/
+
+private theorem Good_refl (nroot : Nat) (st : PState) (h : G T nroot st) : Good T nroot st st :=
+  ⟨h, rfl, rfl⟩
+
+private theorem Good_trans (nroot : Nat) (a b c : PState) (h1 : Good T nroot a b) (h2 : Good T nroot b c) :
+    Good T nroot a c :=
+  ⟨h2.1, h2.2.1.trans h1.2.1, h2.2.2.trans h1.2.2⟩
+
+private theorem Good_len (nroot : Nat) (a b : PState) (h : Good T nroot a b) : b.latex.length = a.latex.length := by
+  rw [h.2.1]
+
+private theorem Good_diags (nroot : Nat) (st st' : PState) (h : G T nroot st)
+    (he : st' = { st with diags := st'.diags }) : Good T nroot st st' := by
+  rw [he]
+  exact ⟨G_diags T nroot st _ h, rfl, rfl⟩
+
+private theorem Post_get_bind {β} (f : PState → M β) (st : PState) (R : β → PState → Prop)
+    (h : Post (f st st) R) : Post ((M.get >>= f) st) R := by
+  apply Post_bind _ _ _ (Q := fun a s => st = a ∧ st = s)
+  · exact Post_get _ _ ⟨rfl, rfl⟩
+  · rintro _ _ ⟨rfl, rfl⟩
+    exact h
+
+private theorem G_congr (nroot : Nat) (st st' : PState) (h : G T nroot st)
+    (h1 : st'.foreign = st.foreign) (h2 : st'.extracted = st.extracted) (h3 : st'.macros = st.macros)
+    (h4 : st'.envs = st.envs) (h5 : st'.glossary = st.glossary) (h6 : st'.nest = st.nest)
+    (h7 : st'.latex = st.latex) : G T nroot st' := by
+  refine ⟨⟨?_, ?_, ?_, ?_⟩, ?_, ?_⟩
+  · rw [h1, h2]; exact h.flows
+  · rw [h3, h4]; exact h.macros
+  · rw [h4]; exact h.envs
+  · rw [h5]; exact h.gloss
+  · rw [h6, h7]; exact h.root
+  · rw [h6]; exact h.inFrame
+
+private theorem Good_congr (nroot : Nat) (st st' : PState) (h : G T nroot st)
+    (h1 : st'.foreign = st.foreign) (h2 : st'.extracted = st.extracted) (h3 : st'.macros = st.macros)
+    (h4 : st'.envs = st.envs) (h5 : st'.glossary = st.glossary) (h6 : st'.nest = st.nest)
+    (h7 : st'.latex = st.latex) : Good T nroot st st' :=
+  ⟨G_congr T nroot st st' h h1 h2 h3 h4 h5 h6 h7, h7, h6⟩
+
+private theorem addUnknown_spec (nroot : Nat) (name : Str) (math : Bool) (st : PState) (h : G T nroot st) :
+    Post (addUnknown name math st) (fun _ s => Good T nroot st s) := by
+  unfold addUnknown
+  apply Post_modify
+  split
+  · exact Good_refl T nroot st h
+  · exact Good_congr T nroot st _ h rfl rfl rfl rfl rfl rfl rfl
+
+private theorem lookupEnv_mem (st : PState) (name : Str) (env : MacroDef) (h : lookupEnv st name = some env) :
+    env ∈ st.envs ∧ env.name = name := by
+  unfold lookupEnv at h
+  exact ⟨List.mem_of_find?_eq_some h, by simpa using List.find?_some h⟩
+
+private theorem lookupMacro_mem (st : PState) (name : Str) (m : MacroDef) (h : lookupMacro st name = some m) :
+    m ∈ st.macros := by
+  unfold lookupMacro at h
+  exact List.mem_of_find?_eq_some h
+
 theorem text_step (hw : T.WFInv) (nroot fuel : Nat) (IH : AllSpecs T nroot fuel) :
     SpecText T nroot (fuel + 1) := by
-  sorry
+  intro toks st hg hb
+  simp only [getTextExpanded]
+  apply Post_bind _ _ _ (Q := fun _ s => Good T nroot st s)
+  · exact Post_mono _ _ _ (IH.seq toks none [] st hg hb (by intro t ht; cases ht)) (fun a s h => h.1)
+  · intro a s h
+    exact Post_pure _ _ _ h
 
 theorem envName_step (hw : T.WFInv) (nroot fuel : Nat) (IH : AllSpecs T nroot fuel) :
     SpecEnvName T nroot (fuel + 1) := by
-  sorry
+  intro buf tok st hg hb ht
+  simp only [getEnvironmentName]
+  apply Post_bind _ _ _ (Q := fun r s => Good T nroot st s ∧ BL T st.latex.length r.1 ∧ BL T st.latex.length r.2)
+  · refine Post_mono _ _ _ (argBuffer_spec T hw buf tok.pos true st hb ht.1.1) ?_
+    intro a s h
+    exact ⟨Good_diags T nroot st s hg h.2.2.2, h.1, h.2.2.1⟩
+  · intro r s h
+    have hl := Good_len T nroot _ _ h.1
+    apply Post_bind _ _ _ (Q := fun _ s' => Good T nroot st s')
+    · refine Post_mono _ _ _ (IH.text r.1 s h.1.1 (by rw [hl]; exact h.2.1)) ?_
+      intro a s' h'
+      exact Good_trans T nroot _ _ _ h.1 h'
+    · intro a s' h'
+      exact Post_pure _ _ _ ⟨h', h.2.2⟩
+
+private theorem BL_nil (n : Nat) : BL T n [] := by intro t ht; cases ht
+private theorem OL_nil (n : Nat) : OL T n [] := by intro t ht; cases ht
+private theorem BL_cons (n : Nat) (a : Tok) (l : List Tok) : BL T n (a :: l) ↔ BTok T n a ∧ BL T n l := by
+  simp [BL]
+private theorem OL_cons (n : Nat) (a : Tok) (l : List Tok) : OL T n (a :: l) ↔ OTok T n a ∧ OL T n l := by
+  simp [OL]
+
+private theorem OL_out0 (n : Nat) (b : Bool) (p : Nat) (hp : p < n) :
+    OL T n (if b = true then [mkFix Kind.par p [nl, nl]] else [mkAction p]) := by
+  split
+  · exact (OL_cons T _ _ _).2 ⟨OTok_mkFix T n p _ _ hp (by simp), OL_nil T n⟩
+  · exact (OL_cons T _ _ _).2 ⟨OTok_mkAction T n p hp, OL_nil T n⟩
+
+private theorem BTok_mathBegin (n p : Nat) (b : Bool) (name : Str) (hp : p < n)
+    (hn : (endFuncNames T).contains name = false) :
+    BTok T n { kind := .mathBegin b, pos := p, txt := name } := by
+  have hn' : name ∉ endFuncNames T := by simpa using hn
+  simp [BTok, TokOk, extent, ctlEmpty, mbOk, isMathTok, hn']
+  omega
+
+private theorem envOk_equ (e : MacroDef) (h : envOk T e = true) (hq : e.isEqu = true) :
+    (endFuncNames T).contains e.name = false := by
+  simp [envOk, hq] at h
+  simpa using h.1
+
+private theorem envOk_endFunc (e : MacroDef) (h : envOk T e = true) (hn : (endFuncNames T).contains e.name = false) :
+    e.endFunc = .none := by
+  have hn' : e.name ∉ endFuncNames T := by simpa using hn
+  simp [envOk, hn'] at h
+  exact h
+
+private def beginTail (T : PTables) (fuel : Nat) (r : Str × Buf) (env : MacroDef) (tok : Tok) : M (List Tok × Buf) := do
+  let out0 := if env.addPars then [mkFix .par tok.pos [nl, nl]] else [mkAction tok.pos]
+  let a ← expandArguments T fuel r.2 env tok.pos
+  if env.isEqu then
+    pure (out0 ++ a.1 ++ [{ kind := .mathBegin env.remove, pos := tok.pos, txt := r.1 }], a.2)
+  else if env.remove then do
+    let s ← expandSequence T fuel a.2 (some r.1) []
+    pure (out0 ++ a.1 ++ s.1, s.2)
+  else pure (out0 ++ a.1, a.2)
+
+private theorem beginTail_spec (nroot fuel : Nat) (IH : AllSpecs T nroot fuel) (st s : PState) (r : Str × Buf)
+    (env : MacroDef) (tok : Tok) (hs : Good T nroot st s) (hr : BL T st.latex.length r.2)
+    (ht : BTok T st.latex.length tok) (hmac : macroToksOk T env = true) (henv : envOk T env = true)
+    (hname : env.name = r.1) :
+    Post (beginTail T fuel r env tok s) (fun r st' =>
+      Good T nroot st st' ∧ BL T st.latex.length r.1 ∧ BL T st.latex.length r.2) := by
+  have hl : s.latex = st.latex := hs.2.1
+  rw [← hl] at hr ht ⊢
+  have hout := OL_BL T _ _ (OL_out0 T s.latex.length env.addPars tok.pos ht.1.1)
+  simp only [beginTail]
+  apply Post_bind _ _ _ (Q := fun a s' => Good T nroot s s' ∧ BL T s.latex.length a.1 ∧ BL T s.latex.length a.2)
+  · exact IH.args r.2 env tok.pos s hs.1 hr hmac ht.1.1
+  · intro a s' ha
+    have hl' : s'.latex = s.latex := ha.1.2.1
+    split
+    · rename_i hequ
+      apply Post_pure
+      refine ⟨Good_trans T nroot _ _ _ hs ha.1, ?_, ha.2.2⟩
+      rw [BL_append, BL_append]
+      refine ⟨⟨hout, ha.2.1⟩, (BL_cons T _ _ _).2 ⟨?_, BL_nil T _⟩⟩
+      apply BTok_mathBegin T _ _ _ _ ht.1.1
+      rw [← hname]
+      exact envOk_equ T env henv hequ
+    · split
+      · apply Post_bind _ _ _ (Q := fun q s'' => Good T nroot s' s'' ∧ BL T s'.latex.length q.1 ∧ BL T s'.latex.length q.2)
+        · refine Post_mono _ _ _ (IH.seq a.2 (some r.1) [] s' ha.1.1 (by rw [hl']; exact ha.2.2) (OL_nil T _)) ?_
+          intro q s'' hq
+          exact ⟨hq.1, hq.2.1, hq.2.2.1⟩
+        · intro q s'' hq
+          rw [hl'] at hq
+          apply Post_pure
+          refine ⟨Good_trans T nroot _ _ _ hs (Good_trans T nroot _ _ _ ha.1 hq.1), ?_, hq.2.2⟩
+          rw [BL_append, BL_append]
+          exact ⟨⟨hout, ha.2.1⟩, hq.2.1⟩
+      · apply Post_pure
+        refine ⟨Good_trans T nroot _ _ _ hs ha.1, ?_, ha.2.2⟩
+        rw [BL_append]
+        exact ⟨hout, ha.2.1⟩
 
 theorem begin_step (hw : T.WFInv) (nroot fuel : Nat) (IH : AllSpecs T nroot fuel) :
     SpecBegin T nroot (fuel + 1) := by
-  sorry
+  intro buf tok math st hg hb ht
+  simp only [beginEnvironment]
+  apply Post_bind _ _ _ (Q := fun r s => Good T nroot st s ∧ BL T st.latex.length r.2)
+  · exact IH.envName buf tok st hg hb ht
+  · intro r s h
+    apply Post_get_bind
+    · cases henv : lookupEnv s r.1 with
+      | none =>
+        apply Post_bind _ _ _ (Q := fun _ s' => Good T nroot st s')
+        · exact Post_mono _ _ _ (addUnknown_spec T nroot _ _ _ h.1.1) (fun _ s' h' => Good_trans T nroot _ _ _ h.1 h')
+        · intro _ s' hs'
+          apply Post_pure
+          exact ⟨hs', (BL_cons T _ _ _).2 ⟨OTok_BTok T _ _ (OTok_mkAction T _ _ ht.1.1), BL_nil T _⟩, h.2⟩
+      | some env =>
+        have hm := lookupEnv_mem _ _ _ henv
+        dsimp only
+        have hmac : macroToksOk T env = true := h.1.1.macros env (List.mem_append_right _ hm.1)
+        have heok : envOk T env = true := h.1.1.envs env hm.1
+        cases hit : env.items with
+        | some style =>
+          dsimp only
+          apply Post_bind _ _ _ (Q := fun _ s' => Good T nroot st s')
+          · apply Post_modify
+            exact Good_trans T nroot _ _ _ h.1 (Good_congr T nroot _ _ h.1.1 rfl rfl rfl rfl rfl rfl rfl)
+          · intro _ s' hs'
+            exact beginTail_spec T nroot fuel IH st s' r env tok hs' h.2 ht hmac heok hm.2
+        | none =>
+          exact beginTail_spec T nroot fuel IH st _ r env tok h.1 h.2 ht hmac heok hm.2
+
+private def endTail (T : PTables) (fuel : Nat) (r : Str × Buf) (env : MacroDef) (tok : Tok) (stop : Bool) :
+    M ((List Tok × Bool) × Buf) := do
+  let out0 := if env.addPars then [mkFix .par tok.pos [nl, nl]] else [mkAction tok.pos]
+  if env.endFunc == .none then pure ((out0, stop), r.2)
+  else do
+    let h ← callHandler T fuel env.endFunc r.2 env [] tok.pos
+    pure ((out0 ++ h, stop), r.2)
+
+private theorem endTail_spec (nroot fuel : Nat) (IH : AllSpecs T nroot fuel) (st s : PState) (r : Str × Buf)
+    (env : MacroDef) (tok : Tok) (envStop : Option Str) (hs : Good T nroot st s) (hr : BL T st.latex.length r.2)
+    (ht : BTok T st.latex.length tok) (henv : envOk T env = true) (hname : env.name = r.1) :
+    Post (endTail T fuel r env tok (envStop == some r.1) s) (fun r st' =>
+      Good T nroot st st' ∧ BL T st.latex.length r.1.1 ∧ BL T st.latex.length r.2 ∧
+      (r.1.2 = true → (∀ nm, envStop = some nm → (endFuncNames T).contains nm = false) →
+        OL T st.latex.length r.1.1)) := by
+  have hl : s.latex = st.latex := hs.2.1
+  rw [← hl] at hr ht ⊢
+  have hout := OL_out0 T s.latex.length env.addPars tok.pos ht.1.1
+  simp only [endTail]
+  split
+  · apply Post_pure
+    exact ⟨hs, OL_BL T _ _ hout, hr, fun _ _ => hout⟩
+  · rename_i hef
+    apply Post_bind _ _ _ (Q := fun a s' => Good T nroot s s' ∧ BL T s.latex.length a)
+    · exact IH.handler env.endFunc r.2 env [] tok.pos s hs.1 hr (by intro a ha; cases ha) ht.1.1
+    · intro a s' ha
+      apply Post_pure
+      refine ⟨Good_trans T nroot _ _ _ hs ha.1, ?_, hr, ?_⟩
+      · rw [BL_append]; exact ⟨OL_BL T _ _ hout, ha.2⟩
+      · intro hstop hnm
+        exfalso
+        apply hef
+        have h1 : envStop = some r.1 := by simpa using hstop
+        have h2 := envOk_endFunc T env henv (by rw [hname]; exact hnm _ h1)
+        simp [h2]
 
 theorem end_step (hw : T.WFInv) (nroot fuel : Nat) (IH : AllSpecs T nroot fuel) :
     SpecEnd T nroot (fuel + 1) := by
-  sorry
+  intro buf tok envStop st hg hb ht
+  simp only [endEnvironment]
+  apply Post_bind _ _ _ (Q := fun r s => Good T nroot st s ∧ BL T st.latex.length r.2)
+  · exact IH.envName buf tok st hg hb ht
+  · intro r s h
+    apply Post_get_bind
+    cases henv : lookupEnv s r.1 with
+    | none =>
+      apply Post_pure
+      have ho : OL T st.latex.length [mkAction tok.pos] :=
+        (OL_cons T _ _ _).2 ⟨OTok_mkAction T _ _ ht.1.1, OL_nil T _⟩
+      exact ⟨h.1, OL_BL T _ _ ho, h.2, fun _ _ => ho⟩
+    | some env =>
+      have hm := lookupEnv_mem _ _ _ henv
+      have heok : envOk T env = true := h.1.1.envs env hm.1
+      dsimp only
+      by_cases hc : (env.items.isSome && decide (s.itemStack.length > 1)) = true
+      · rw [if_pos hc]
+        apply Post_bind _ _ _ (Q := fun _ s' => Good T nroot st s')
+        · apply Post_modify
+          exact Good_trans T nroot _ _ _ h.1 (Good_congr T nroot _ _ h.1.1 rfl rfl rfl rfl rfl rfl rfl)
+        · intro _ s' hs'
+          exact endTail_spec T nroot fuel IH st s' r env tok envStop hs' h.2 ht heok hm.2
+      · rw [if_neg hc]
+        exact endTail_spec T nroot fuel IH st s r env tok envStop h.1 h.2 ht heok hm.2
 
 theorem macro_step (hw : T.WFInv) (nroot fuel : Nat) (IH : AllSpecs T nroot fuel) :
     SpecMacro T nroot (fuel + 1) := by
-  sorry
+  intro buf tok math st hg hb ht
+  simp only [expandMacro]
+  apply Post_get_bind
+  have hb' := BL_skipSpace T _ _ hb
+  cases hmac : lookupMacro st tok.txt with
+  | none =>
+    dsimp only
+    apply Post_bind _ _ _ (Q := fun _ s' => Good T nroot st s')
+    · exact addUnknown_spec T nroot _ _ _ hg
+    · intro _ s' hs'
+      apply Post_pure
+      exact ⟨hs', (BL_cons T _ _ _).2 ⟨OTok_BTok T _ _ (OTok_mkAction T _ _ ht.1.1), BL_nil T _⟩, hb'⟩
+  | some mac =>
+    dsimp only
+    have hm := lookupMacro_mem _ _ _ hmac
+    exact IH.args _ mac tok.pos st hg hb' (hg.macros mac (List.mem_append_left _ hm)) ht.1.1
+
+private theorem macroToksOk_repl (m : MacroDef) (h : macroToksOk T m = true) : ∀ t ∈ m.repl, storedOk T t = true := by
+  simp only [macroToksOk, Bool.and_eq_true, List.all_eq_true] at h
+  exact h.1.1
+
+private theorem macroToksOk_extract (m : MacroDef) (h : macroToksOk T m = true) :
+    ∀ t ∈ m.extract, storedOk T t = true := by
+  simp only [macroToksOk, Bool.and_eq_true, List.all_eq_true] at h
+  exact h.2
+
+private theorem G_extract (nroot : Nat) (s : PState) (e : List Tok) (h : G T nroot s) (he : OL T s.latex.length e) :
+    G T nroot { s with extracted := s.extracted ++ [e], foreign := s.foreign || s.nest != 1 } := by
+  refine ⟨⟨?_, h.macros, h.envs, h.gloss⟩, h.root, h.inFrame⟩
+  intro hf x hx
+  have hf' : s.foreign = false ∧ s.nest = 1 := by simpa using hf
+  rcases List.mem_append.1 hx with hx | hx
+  · exact h.flows hf'.1 x hx
+  · have : x = e := by simpa using hx
+    subst this
+    rw [← h.root hf'.2]
+    exact he
+
+private def argsTail (T : PTables) (fuel : Nat) (mac : MacroDef) (r : Args × Buf) (start : Nat) : M (List Tok × Buf) :=
+  if mac.handler != .none then do
+    let h ← callHandler T fuel mac.handler r.2 mac r.1.args start
+    pure (mkAction start :: h, r.2)
+  else
+    match generateReplacements r.1.args mac.repl start with
+    | none => M.crash "parser.py:generate_replacements:arguments[tok.arg-1]"
+    | some g => pure (mkAction start :: g, r.2)
+
+private theorem argsTail_spec (nroot fuel : Nat) (IH : AllSpecs T nroot fuel) (st s : PState) (mac : MacroDef)
+    (r : Args × Buf) (start : Nat) (hs : Good T nroot st s) (hmac : macroToksOk T mac = true)
+    (ha : ∀ a ∈ r.1.args, BL T st.latex.length a) (hr : BL T st.latex.length r.2)
+    (hst : start < st.latex.length) :
+    Post (argsTail T fuel mac r start s) (fun r st' =>
+      Good T nroot st st' ∧ BL T st.latex.length r.1 ∧ BL T st.latex.length r.2) := by
+  have hl : s.latex = st.latex := hs.2.1
+  rw [← hl] at ha hr hst ⊢
+  have hact := OTok_BTok T _ _ (OTok_mkAction T _ _ hst)
+  simp only [argsTail]
+  by_cases hc : (mac.handler != Handler.none) = true
+  · rw [if_pos hc]
+    apply Post_bind _ _ _ (Q := fun a s' => Good T nroot s s' ∧ BL T s.latex.length a)
+    · exact IH.handler mac.handler r.2 mac r.1.args start s hs.1 hr ha hst
+    · intro a s' h'
+      apply Post_pure
+      exact ⟨Good_trans T nroot _ _ _ hs h'.1, (BL_cons T _ _ _).2 ⟨hact, h'.2⟩, hr⟩
+  · rw [if_neg hc]
+    cases hg : generateReplacements r.1.args mac.repl start with
+    | none => exact Post_crash _ _ _
+    | some g =>
+      apply Post_pure
+      exact ⟨hs, (BL_cons T _ _ _).2 ⟨hact,
+        generateReplacements_BL T _ _ _ _ _ ha (macroToksOk_repl T mac hmac) hst hg⟩, hr⟩
 
 theorem args_step (hw : T.WFInv) (nroot fuel : Nat) (IH : AllSpecs T nroot fuel) :
     SpecArgs T nroot (fuel + 1) := by
-  sorry
+  intro buf mac start st hg hb hmac hst
+  simp only [expandArguments]
+  apply Post_bind _ _ _ (Q := fun r s => Good T nroot st s ∧ (∀ a ∈ r.1.args, BL T st.latex.length a) ∧
+    (∀ a ∈ r.1.extr, BL T st.latex.length a) ∧ BL T st.latex.length r.2)
+  · refine Post_mono _ _ _ (collectArgs_spec T hw mac mac.args 0 buf start {} st hmac hb hst
+      ⟨(by intro a ha; cases ha), (by intro a ha; cases ha)⟩) ?_
+    intro r s h
+    exact ⟨Good_diags T nroot st s hg h.2.2.2, h.1, h.2.1, h.2.2.1⟩
+  · intro r s h
+    by_cases hc : (!mac.extract.isEmpty) = true
+    · rw [if_pos hc]
+      apply Post_get_bind
+      cases hgen : generateReplacements r.1.extr mac.extract start with
+      | none =>
+        dsimp only
+        apply Post_bind _ _ _ (Q := fun _ _ => False)
+        · exact Post_crash _ _ _
+        · intro _ _ hf; exact hf.elim
+      | some g =>
+        dsimp only
+        have hl : s.latex = st.latex := h.1.2.1
+        have hgb : BL T s.latex.length g := by
+          rw [hl]
+          exact generateReplacements_BL T _ _ _ _ _ h.2.2.1 (macroToksOk_extract T mac hmac) hst hgen
+        apply Post_bind _ _ _ (Q := fun e s' => Good T nroot s s' ∧ OL T s.latex.length e.1)
+        · refine Post_mono _ _ _ (IH.seq (mkLang start (curLang s) false true true :: g) none [] s h.1.1
+            ((BL_cons T _ _ _).2 ⟨OTok_BTok T _ _ (OTok_mkLang T _ _ _ _ _ _ (by rw [hl]; exact hst)), hgb⟩)
+            (OL_nil T _)) ?_
+          intro e s' he
+          exact ⟨he.1, he.2.2.2 rfl⟩
+        · intro e s' he
+          apply Post_bind _ _ _ (Q := fun _ s'' => Good T nroot st s'')
+          · apply Post_modify
+            have hl' : s'.latex = s.latex := he.1.2.1
+            refine Good_trans T nroot _ _ _ h.1 (Good_trans T nroot _ _ _ he.1 ⟨?_, rfl, rfl⟩)
+            exact G_extract T nroot s' e.1 he.1.1 (by rw [hl']; exact he.2)
+          · intro _ s'' hs''
+            exact argsTail_spec T nroot fuel IH st s'' mac r start hs'' hmac h.2.1 h.2.2.2 hst
+    · rw [if_neg hc]
+      exact argsTail_spec T nroot fuel IH st s mac r start h.1 hmac h.2.1 h.2.2.2 hst
+
+private theorem lastPos_lt (n start : Nat) (l : List Tok) (hl : BL T n l) (hs : start < n) :
+    (Option.map (fun x => x.pos) l.getLast?).getD start < n := by
+  cases h : l.getLast? with
+  | none => simpa using hs
+  | some x =>
+    have hx : x ∈ l := List.mem_of_getLast? h
+    simpa using (hl x hx).1.1
+
+private theorem BTok_space (n p : Nat) (hp : p < n) : BTok T n (mkFix Kind.space p [' ']) :=
+  OTok_BTok T _ _ (OTok_mkFix T n p _ _ hp (by simp))
+
+private theorem BTok_text (n p : Nat) (txt : Str) (hp : p < n) : BTok T n (mkFix Kind.text p txt) :=
+  OTok_BTok T _ _ (OTok_mkFix T n p _ _ hp (by simp))
+
+private theorem item_wrap (n start : Nat) (X : List Tok) (hX : BL T n X) (hs : start < n) :
+    BL T n (mkFix Kind.space start [' '] ::
+      (X ++ [mkFix Kind.space ((Option.map (fun x => x.pos) X.getLast?).getD start) [' ']])) := by
+  rw [BL_cons, BL_append, BL_cons]
+  exact ⟨BTok_space T _ _ hs, hX, BTok_space T _ _ (lastPos_lt T n start X hX hs), BL_nil T _⟩
 
 theorem item_step (hw : T.WFInv) (nroot fuel : Nat) (IH : AllSpecs T nroot fuel) :
     SpecItem T nroot (fuel + 1) := by
-  sorry
+  intro buf tok outSoFar st hg hb ht
+  simp only [expandItem]
+  apply Post_bind _ _ _ (Q := fun r s => Good T nroot st s ∧ BL T st.latex.length r.1 ∧ BL T st.latex.length r.2)
+  · exact IH.args buf _ tok.pos st hg hb (by simp [macroToksOk, storedOk, isMathTok, ctlEmpty, mbOk]) ht.1.1
+  · intro r s h
+    by_cases hc : (r.1.length == 1) = true
+    · rw [if_pos hc]
+      apply Post_get_bind
+      cases his : s.itemStack with
+      | nil => exact Post_crash _ _ _
+      | cons g gs =>
+        dsimp only
+        cases hlab : itemLabel T.itemDefaultLabel g with
+        | none => exact Post_crash _ _ _
+        | some lab =>
+          dsimp only
+          apply Post_bind _ _ _ (Q := fun _ s' => Good T nroot st s')
+          · apply Post_modify
+            exact Good_trans T nroot _ _ _ h.1 (Good_congr T nroot _ _ h.1.1 rfl rfl rfl rfl rfl rfl rfl)
+          · intro _ s' hs'
+            apply Post_pure
+            refine ⟨hs', ?_, h.2.2⟩
+            rw [BL_append, BL_cons, BL_cons, BL_cons]
+            exact ⟨h.2.1, BTok_space T _ _ ht.1.1, BTok_text T _ _ _ ht.1.1, BTok_space T _ _ ht.1.1, BL_nil T _⟩
+    · rw [if_neg hc]
+      apply Post_pure
+      refine ⟨h.1, ?_, h.2.2⟩
+      apply item_wrap T _ _ _ ?_ ht.1.1
+      split
+      · split
+        · split
+          · rw [BL_append, BL_cons]
+            exact ⟨h.2.1, BTok_text T _ _ _ (lastPos_lt T _ _ _ h.2.1 ht.1.1), BL_nil T _⟩
+          · exact h.2.1
+        · exact h.2.1
+      · exact h.2.1
+
+private theorem OTok_accentU (n : Nat) (tok : Tok) (txt : Str) (ht : BTok T n tok) (hk : tok.kind = .accent)
+    (hlen : tok.txt.length = 2) (hu : txt.length ≤ 2) :
+    OTok T n { kind := .text, pos := tok.pos, txt := txt, fix := tok.fix } := by
+  obtain ⟨⟨h1, h2, _, _⟩, _⟩ := ht
+  simp only [extent, hk] at h2
+  simp only [OTok, TokOk, extent, ctlEmpty, mbOk, outKind, h1, true_and, and_true]
+  intro hf
+  have := h2 hf
+  omega
+
+private theorem OTok_shorten (n : Nat) (t : Tok) (c : Char) (cs : Str) (h : OTok T n t) (ht : t.txt = c :: cs) :
+    OTok T n { kind := t.kind, pos := t.pos, txt := cs, fix := t.fix } := by
+  obtain ⟨k, p, x, f⟩ := t
+  simp only at ht
+  subst ht
+  obtain ⟨⟨h1, h2, h3, h4⟩, h5⟩ := h
+  cases f <;> cases k <;> simp_all [OTok, TokOk, extent, ctlEmpty, mbOk, outKind] <;> omega
+
+private theorem accent_err (hw : T.WFInv) (nroot : Nat) (st s : PState) (err : Str) (pos : Nat) (a2 : Buf)
+    (hs : Good T nroot st s) (hp : pos < st.latex.length) (ha2 : BL T st.latex.length a2) :
+    Post ((latexError T.toTables err pos >>= fun er => (pure (er, a2) : M (List Tok × Buf))) s) (fun r st' =>
+      Good T nroot st st' ∧ OL T st.latex.length r.1 ∧ BL T st.latex.length r.2) := by
+  have hl : s.latex = st.latex := hs.2.1
+  rw [← hl] at hp ha2 ⊢
+  apply Post_bind _ _ _ (Q := fun er s' => Good T nroot st s' ∧ OL T s.latex.length er)
+  · refine Post_mono _ _ _ (latexError_spec T hw err pos s hp) ?_
+    intro er s' h
+    exact ⟨Good_trans T nroot _ _ _ hs (Good_diags T nroot s s' hs.1 h.2), h.1⟩
+  · intro er s' h
+    exact Post_pure _ _ _ ⟨h.1, h.2, ha2⟩
+
+private def accentEmit (T : PTables) (tok : Tok) (a2 : Buf) (rest : List Tok) (nm : Str) : M (List Tok × Buf) :=
+  match T.unicodeNames.find? (·.1 == nm) with
+  | some u => pure ({ kind := .text, pos := tok.pos, txt := u.2, fix := tok.fix } :: rest, a2)
+  | none => do
+    let er ← latexError T.toTables ("could not find UTF-8 character \"".toList ++ nm ++ ['"']) tok.pos
+    pure (er, a2)
+
+private def accentTail (T : PTables) (tok : Tok) (a2 : Buf) (names : List Str) (c : Option Char) (rest : List Tok) :
+    M (List Tok × Buf) :=
+  let blank := match c with | none => true | some ch => isSpace ch
+  if blank then accentEmit T tok a2 rest (strJoin [' '] names)
+  else
+    match c with
+    | none => M.crash "unreachable"
+    | some ch =>
+      if !isAsciiLetter ch then do
+        let er ← latexError T.toTables "text-mode accent for non-letter".toList tok.pos
+        pure (er, a2)
+      else
+        match names.head? with
+        | none => M.crash "parser.py:expand_accent:accent_macros[tok.txt][0]"
+        | some n0 =>
+          let lower := 'a' ≤ ch && ch ≤ 'z'
+          let up : Char := if lower then Char.ofNat (ch.toNat - 32) else ch
+          accentEmit T tok a2 rest ("LATIN ".toList ++ (if lower then "SMALL".toList else "CAPITAL".toList)
+                      ++ " LETTER ".toList ++ [up] ++ " WITH ".toList ++ n0)
+
+private theorem accentEmit_spec (hw : T.WFInv) (nroot : Nat) (st s : PState) (tok : Tok) (a2 : Buf)
+    (rest : List Tok) (nm : Str) (hs : Good T nroot st s) (ht : BTok T st.latex.length tok)
+    (hk : tok.kind = .accent) (hlen : tok.txt.length = 2) (ha2 : BL T st.latex.length a2)
+    (hrest : OL T st.latex.length rest) :
+    Post (accentEmit T tok a2 rest nm s) (fun r st' =>
+      Good T nroot st st' ∧ OL T st.latex.length r.1 ∧ BL T st.latex.length r.2) := by
+  simp only [accentEmit]
+  cases hu : List.find? (fun x => x.1 == nm) T.unicodeNames with
+  | some u =>
+    refine Post_pure _ _ _ ⟨hs, ?_, ha2⟩
+    exact (OL_cons T _ _ _).2 ⟨OTok_accentU T _ tok u.2 ht hk hlen
+      (hw.unicode_len u (List.mem_of_find?_eq_some hu)), hrest⟩
+  | none => exact accent_err T hw nroot st s _ _ a2 hs ht.1.1 ha2
+
+private theorem accentTail_spec (hw : T.WFInv) (nroot : Nat) (st s : PState) (tok : Tok) (a2 : Buf) (names : List Str)
+    (c : Option Char) (rest : List Tok) (hs : Good T nroot st s) (ht : BTok T st.latex.length tok)
+    (hk : tok.kind = .accent) (hlen : tok.txt.length = 2) (ha2 : BL T st.latex.length a2)
+    (hrest : OL T st.latex.length rest) :
+    Post (accentTail T tok a2 names c rest s) (fun r st' =>
+      Good T nroot st st' ∧ OL T st.latex.length r.1 ∧ BL T st.latex.length r.2) := by
+  have hE := fun nm => accentEmit_spec T hw nroot st s tok a2 rest nm hs ht hk hlen ha2 hrest
+  cases c with
+  | none =>
+    simp only [accentTail]
+    exact hE _
+  | some ch =>
+    simp only [accentTail]
+    by_cases hb : isSpace ch = true
+    · rw [if_pos hb]; exact hE _
+    · rw [if_neg hb]
+      by_cases hl : (!isAsciiLetter ch) = true
+      · rw [if_pos hl]
+        exact accent_err T hw nroot st s _ _ a2 hs ht.1.1 ha2
+      · rw [if_neg hl]
+        cases hn : names.head? with
+        | none => exact Post_crash _ _ _
+        | some n0 => exact hE _
 
 theorem accent_step (hw : T.WFInv) (nroot fuel : Nat) (IH : AllSpecs T nroot fuel) :
     SpecAccent T nroot (fuel + 1) := by
-  sorry
+  intro buf tok st hg hb ht hk
+  simp only [expandAccent]
+  apply Post_bind _ _ _ (Q := fun a s => Good T nroot st s ∧ BL T st.latex.length a.1 ∧ BL T st.latex.length a.2)
+  · refine Post_mono _ _ _ (argBuffer_spec T hw buf tok.pos true st hb ht.1.1) ?_
+    intro a s h
+    exact ⟨Good_diags T nroot st s hg h.2.2.2, h.1, h.2.2.1⟩
+  · intro a s ha
+    have hl : s.latex = st.latex := ha.1.2.1
+    apply Post_bind _ _ _ (Q := fun e s' => Good T nroot st s' ∧ OL T st.latex.length e.1)
+    · refine Post_mono _ _ _ (IH.seq a.1 none [] s ha.1.1 (by rw [hl]; exact ha.2.1) (OL_nil T _)) ?_
+      intro e s' he
+      rw [hl] at he
+      exact ⟨Good_trans T nroot _ _ _ ha.1 he.1, he.2.2.2 rfl⟩
+    · intro e s' he
+      cases hacc : T.accents.find? (·.1 == tok.txt) with
+      | none => exact Post_crash _ _ _
+      | some ac =>
+        have hlen : tok.txt.length = 2 := by
+          have h1 := hw.accent_len ac (List.mem_of_find?_eq_some hacc)
+          have h2 : ac.1 = tok.txt := by simpa using List.find?_some hacc
+          rw [← h2]; exact h1
+        simp only [Option.map_some]
+        cases he1 : e.1 with
+        | nil =>
+          exact accentTail_spec T hw nroot st s' tok a.2 ac.2 none [] he.1 ht hk hlen ha.2.2 (OL_nil T _)
+        | cons t ts =>
+          have hts : OL T st.latex.length (t :: ts) := he1 ▸ he.2
+          have hts' := (OL_cons T _ _ _).1 hts
+          obtain ⟨k, p, x, f⟩ := t
+          dsimp only
+          cases x with
+          | nil =>
+            exact accentTail_spec T hw nroot st s' tok a.2 ac.2 none _ he.1 ht hk hlen ha.2.2 hts
+          | cons c cs =>
+            cases cs with
+            | nil =>
+              exact accentTail_spec T hw nroot st s' tok a.2 ac.2 (some c) ts he.1 ht hk hlen ha.2.2 hts'.2
+            | cons c' cs' =>
+              exact accentTail_spec T hw nroot st s' tok a.2 ac.2 (some c) _ he.1 ht hk hlen ha.2.2
+                ((OL_cons T _ _ _).2 ⟨OTok_shorten T _ _ c (c' :: cs') hts'.1 rfl, hts'.2⟩)
 
 end Yalafi
